@@ -514,6 +514,11 @@ CATALOGUE['C14'] += [
   (F, 'R-PARTIALRAISE', 'camxfiles/one3d/Memmap.py', "        if self.__records % lays != 0:\n            raise ValueError('Incomplete time step: %d records of %d layers'\n                             % (self.__records, lays))\n", ""),
 ]
 
+CATALOGUE['C06'] += [
+  (F, 'R-MASKCARRY', _F, "                vals = np.ma.masked_values(vals, values)\n                vals = np.ma.masked_where(premask, vals)\n", "                vals = np.ma.masked_values(vals, values)\n"),
+  (F, 'R-MASKCARRY', _F, "                premask = np.ma.getmaskarray(vals)\n                vals = np.ma.masked_values(vals, values)\n", "                vals = np.ma.masked_values(vals, values)\n                premask = np.ma.getmaskarray(vals)\n"),
+  (S, None, _F, "                premask = np.ma.getmaskarray(vals)\n                vals = np.ma.masked_values(vals, values)\n                vals = np.ma.masked_where(premask, vals)\n", "                vals = np.ma.masked_where(np.ma.getmaskarray(vals), np.ma.masked_values(vals, values))\n"),
+]
 CATALOGUE['C08'] += [
   (F, 'R-LUORDER', 'camxfiles/landuse/Write.py', "['FLAND', 'LUCAT11', 'LUCAT26', 'VAR1', 'LAI', 'TOPO']", "['FLAND', 'VAR1', 'LAI', 'TOPO', 'LUCAT11', 'LUCAT26']"),
   (S, None, 'camxfiles/landuse/Write.py', "['FLAND', 'LUCAT11', 'LUCAT26', 'VAR1', 'LAI', 'TOPO']", "['LUCAT26', 'LUCAT11', 'FLAND', 'VAR1', 'LAI', 'TOPO']"),
